@@ -397,7 +397,7 @@ func c20Run(r *fw.R, d c20Desc) {
 		}
 		// the timeout watcher in particular: once the closer has returned it must have left its select
 		if l := c20SelectLine(); l > 0 {
-			at := fmt.Sprintf("/repo/conn.go:%d ", l)
+			at := fmt.Sprintf("%s/conn.go:%d ", repoDir(), l)
 			for _, g := range libGoroutines() {
 				if strings.Contains(g, "(*Conn).timeoutLoop(") && strings.Contains(g, at) && !containsStr(parked, g) {
 					parked = append(parked, g)
@@ -492,7 +492,7 @@ var (
 // timeout watcher whose frame is at that line has not left (or not even been woken from) its select.
 func c20SelectLine() int {
 	c20SelOnce.Do(func() {
-		b, err := os.ReadFile("/repo/conn.go")
+		b, err := os.ReadFile(repoDir() + "/conn.go")
 		if err != nil {
 			return
 		}
@@ -508,4 +508,13 @@ func c20SelectLine() int {
 		}
 	})
 	return c20SelLine
+}
+
+// repoDir is where the library under test was built from: /repo, unless the
+// validation tooling (tools/run_scratch.sh) points the build at a scratch worktree.
+func repoDir() string {
+	if d := os.Getenv("VERIF_REPO"); d != "" {
+		return d
+	}
+	return "/repo"
 }
